@@ -1,4 +1,5 @@
 import JellyModel.Joint
+import JellyProofs.Lemmas.Pin
 /-!
 # Writer/reader lookup mirror invariant
 
@@ -30,6 +31,8 @@ structure Mirror (e : LookupEnc) (d : LookupDec) : Prop where
   len : d.data.length = e.lookup.maxSize
   la : e.lastAssigned = d.lastAssigned
   res : ∀ k i, (k, i) ∈ e.lookup.data → d.data[i - 1]? = some (some k)
+  /-- the tables of the joint run are raw tables: no row-local pin tracking -/
+  np : e.lookup.pinned = none
 
 /-! ## Basic facts on `WF` -/
 
@@ -105,7 +108,8 @@ theorem Lookup.moveToEnd_perm {l l' : Lookup} {k} (h : l.moveToEnd k = some l') 
   · rename_i e he
     have hmem := (Lookup.find?_some_mem he).1
     injection h with h; subst h
-    refine ⟨?_, rfl, rfl⟩
+    refine ⟨?_, by simp, by simp⟩
+    rw [Lookup.pin_data]
     exact (List.perm_append_comm).trans (List.perm_cons_erase hmem).symm
 
 theorem Lookup.moveToEnd_none {l : Lookup} {k} (h : l.moveToEnd k = none) :
@@ -132,15 +136,16 @@ theorem Lookup.moveToEnd_some_mem {l l' : Lookup} {k} (h : l.moveToEnd k = some 
 /-- On a resident key `moveToEnd` succeeds, keeps the index of the key and only permutes `data`. -/
 theorem Lookup.WFm.moveToEnd_resident {l : Lookup} (wf : l.WFm) {k i} (h : (k, i) ∈ l.data) :
     ∃ l', l.moveToEnd k = some l' ∧ l'.WFm ∧ l'.data.Perm l.data ∧ l'.maxSize = l.maxSize ∧
-      l'.evicting = l.evicting ∧ (k, i) ∈ l'.data ∧ l'.find? k = some (k, i) := by
+      l'.evicting = l.evicting ∧ (k, i) ∈ l'.data ∧ l'.find? k = some (k, i) ∧
+      l'.pinned = l.pinned.map (k :: ·) := by
   have hf := wf.find?_of_mem h
-  have hm : l.moveToEnd k = some { l with data := l.data.erase (k, i) ++ [(k, i)] } := by
+  have hm : l.moveToEnd k = some (({ l with data := l.data.erase (k, i) ++ [(k, i)] } : Lookup).pin k) := by
     unfold Lookup.moveToEnd
     rw [hf]
   obtain ⟨hp, hmax, hev⟩ := Lookup.moveToEnd_perm hm
   have wf' := wf.of_perm hp hmax hev
-  have hmem : (k, i) ∈ (l.data.erase (k, i) ++ [(k, i)]) := by simp
-  exact ⟨_, hm, wf', hp, hmax, hev, hmem, wf'.find?_of_mem hmem⟩
+  have hmem : (k, i) ∈ (({ l with data := l.data.erase (k, i) ++ [(k, i)] } : Lookup).pin k).data := by simp
+  exact ⟨_, hm, wf', hp, hmax, hev, hmem, wf'.find?_of_mem hmem, Lookup.moveToEnd_pinned hm⟩
 
 /-! ## Reader primitives -/
 
@@ -163,9 +168,9 @@ theorem LookupDec.at_spec {d : LookupDec} {i : Nat} {k : String} (hi : 1 ≤ i)
 
 theorem Mirror.of_perm {e : LookupEnc} {d : LookupDec} (m : Mirror e d) {l' : Lookup}
     (hp : l'.data.Perm e.lookup.data) (hm : l'.maxSize = e.lookup.maxSize)
-    (he : l'.evicting = e.lookup.evicting) (lr : Nat) :
+    (he : l'.evicting = e.lookup.evicting) (hn : l'.pinned = none) (lr : Nat) :
     Mirror { e with lookup := l', lastReused := lr } d := by
-  refine ⟨m.wf.of_perm hp hm he, ?_, ?_, m.la, ?_⟩
+  refine ⟨m.wf.of_perm hp hm he, ?_, ?_, m.la, ?_, hn⟩
   · simpa [hm] using m.size
   · simpa [hm] using m.len
   · intro k i hki
@@ -174,11 +179,11 @@ theorem Mirror.of_perm {e : LookupEnc} {d : LookupDec} (m : Mirror e d) {l' : Lo
 /-- `Mirror` does not mention the `lastReused` fields. -/
 theorem Mirror.set_lastReused {e : LookupEnc} {d : LookupDec} (m : Mirror e d) (a b : Nat) :
     Mirror { e with lastReused := a } { d with lastReused := b } :=
-  ⟨m.wf, m.size, m.len, m.la, m.res⟩
+  ⟨m.wf, m.size, m.len, m.la, m.res, m.np⟩
 
 theorem Mirror.init {n : Nat} (h : 0 < n) :
     Mirror (LookupEnc.new n) { size := n, data := List.replicate n none } := by
-  refine ⟨Lookup.WFm.new h, rfl, ?_, rfl, ?_⟩
+  refine ⟨Lookup.WFm.new h, rfl, ?_, rfl, ?_, rfl⟩
   · simp [LookupEnc.new, Lookup.new]
   · intro k i hki
     simp [LookupEnc.new, Lookup.new] at hki
@@ -193,17 +198,17 @@ theorem Mirror.at_resident {e : LookupEnc} {d : LookupDec} (m : Mirror e d) {k i
 theorem Mirror.entry_hit {e : LookupEnc} {d : LookupDec} {k} (m : Mirror e d) {l'}
     (h : e.lookup.moveToEnd k = some l') : Mirror { e with lookup := l' } d := by
   obtain ⟨hp, hm, he⟩ := Lookup.moveToEnd_perm h
-  exact m.of_perm hp hm he e.lastReused
+  exact m.of_perm hp hm he (by rw [Lookup.moveToEnd_pinned h, m.np]; rfl) e.lastReused
 
 /-- Shared tail of both insert cases. -/
 theorem Mirror.after_set {e : LookupEnc} {d : LookupDec} {k : String} {i : Nat} {l' : Lookup}
-    (m : Mirror e d) (wf' : l'.WFm) (hm : l'.maxSize = e.lookup.maxSize)
+    (m : Mirror e d) (wf' : l'.WFm) (hm : l'.maxSize = e.lookup.maxSize) (hn : l'.pinned = none)
     (hi : 1 ≤ i) (hle : i ≤ e.lookup.maxSize)
     (hold : ∀ k' i', (k', i') ∈ l'.data →
       (k', i') = (k, i) ∨ ((k', i') ∈ e.lookup.data ∧ i' ≠ i)) :
     Mirror { e with lookup := l', lastAssigned := i }
       { d with data := d.data.set (i - 1) (some k), lastAssigned := i } := by
-  refine ⟨wf', by simpa [hm] using m.size, by simpa [hm] using m.len, rfl, ?_⟩
+  refine ⟨wf', by simpa [hm] using m.size, by simpa [hm] using m.len, rfl, ?_, hn⟩
   intro k' i' hmem
   rcases hold k' i' hmem with h | ⟨h, hne⟩
   · injection h with h1 h2; subst h1; subst h2
@@ -225,6 +230,7 @@ theorem Mirror.entry_miss {e : LookupEnc} {d : LookupDec} {k} (m : Mirror e d)
       d'.lastReused = d.lastReused := by
   have hk := Lookup.moveToEnd_none h
   have wf := m.wf
+  have hnp := m.np
   have hpos : (e.lookup.maxSize == 0) = false := by have := wf.pos; simp; omega
   have hknot : k ∉ e.lookup.data.map (·.1) := by
     intro hc; obtain ⟨x, hx, hxk⟩ := List.mem_map.mp hc; exact hk x hx hxk
@@ -238,7 +244,8 @@ theorem Mirror.entry_miss {e : LookupEnc} {d : LookupDec} {k} (m : Mirror e d)
       have hr0 := wf.idx_range hmem0
       have hlen := wf.lenLe
       have hrv : e.lookup.insert k = .ok ({ e.lookup with data := rest ++ [(k, i0)] }, i0) := by
-        simp only [Lookup.insert, hpos, hev, hd]; rfl
+        simp only [Lookup.insert, hpos, hev, hd, Lookup.isPinned_of_none hnp]
+        rw [Lookup.pin_of_none (by exact hnp)]; rfl
       have hkeys := wf.keysNodup; have hidx := wf.idxPerm; have hevv := wf.ev
       rw [hd] at hkeys hidx hevv hlen hr0
       simp only [List.map_cons, List.nodup_cons, List.length_cons] at hkeys hidx hevv hlen hr0
@@ -263,7 +270,7 @@ theorem Mirror.entry_miss {e : LookupEnc} {d : LookupDec} {k} (m : Mirror e d)
       refine ⟨_, i0, _, hrv,
         LookupDec.assignEntry_spec (i := i0) (by omega) (by have := m.len; omega) hid, ?_, ?_,
         rfl, by simp, rfl⟩
-      · apply Mirror.after_set m wf' rfl (by omega) (by omega)
+      · apply Mirror.after_set m wf' rfl hnp (by omega) (by omega)
         intro k' i' hm'
         simp only [List.mem_append, List.mem_singleton] at hm'
         rcases hm' with hm' | hm'
@@ -280,9 +287,11 @@ theorem Mirror.entry_miss {e : LookupEnc} {d : LookupDec} {k} (m : Mirror e d)
       have := wf.ev; simp [hev'] at this; exact this
     have hlen := wf.lenLe
     let l2 : Lookup := ⟨e.lookup.maxSize, e.lookup.data ++ [(k, e.lookup.data.length + 1)],
-                        (e.lookup.data.length + 1 == e.lookup.maxSize)⟩
+                        (e.lookup.data.length + 1 == e.lookup.maxSize), none⟩
     have hrv : e.lookup.insert k = .ok (l2, e.lookup.data.length + 1) := by
-      simp only [Lookup.insert, hpos, hev']; rfl
+      simp only [Lookup.insert, hpos, hev']
+      rw [Lookup.pin_of_none (by exact hnp)]
+      simp only [l2, ← hnp]; rfl
     have wf' : l2.WFm := by
       refine ⟨wf.pos, ?_, ?_, ?_, ?_⟩
       all_goals dsimp only [l2]
@@ -305,7 +314,7 @@ theorem Mirror.entry_miss {e : LookupEnc} {d : LookupDec} {k} (m : Mirror e d)
     refine ⟨l2, _, _, hrv,
       LookupDec.assignEntry_spec (i := e.lookup.data.length + 1) (by omega)
         (by have := m.len; omega) hid, ?_, ?_, rfl, by simp [l2], rfl⟩
-    · apply Mirror.after_set m wf' rfl (by omega) (by omega)
+    · apply Mirror.after_set m wf' rfl rfl (by omega) (by omega)
       intro k' i' hm'
       dsimp only [l2] at hm'
       simp only [List.mem_append, List.mem_singleton] at hm'
@@ -344,10 +353,11 @@ theorem LookupEnc.termIndex_resident {e : LookupEnc} (wf : e.lookup.WFm) {k i}
     (h : (k, i) ∈ e.lookup.data) :
     ∃ l', e.termIndex k = .ok ({ e with lookup := l', lastReused := i }, i) ∧
       l'.WFm ∧ l'.data.Perm e.lookup.data ∧ l'.maxSize = e.lookup.maxSize ∧
-      l'.evicting = e.lookup.evicting ∧ (k, i) ∈ l'.data ∧ 1 ≤ i ∧ i ≤ e.lookup.maxSize := by
-  obtain ⟨l', hmv, wf', hp, hmax, hev, hmem, hf⟩ := wf.moveToEnd_resident h
+      l'.evicting = e.lookup.evicting ∧ (k, i) ∈ l'.data ∧ 1 ≤ i ∧ i ≤ e.lookup.maxSize ∧
+      l'.pinned = e.lookup.pinned.map (k :: ·) := by
+  obtain ⟨l', hmv, wf', hp, hmax, hev, hmem, hf, hpin⟩ := wf.moveToEnd_resident h
   have hr := wf.idx_le_max h
-  refine ⟨l', ?_, wf', hp, hmax, hev, hmem, hr.1, hr.2⟩
+  refine ⟨l', ?_, wf', hp, hmax, hev, hmem, hr.1, hr.2, hpin⟩
   simp only [LookupEnc.termIndex, hmv, hf]
 
 /-- Mirror version of `termIndex_resident`: additionally the reader resolves the returned index. -/
@@ -357,10 +367,11 @@ theorem Mirror.termIndex_resident {e : LookupEnc} {d : LookupDec} (m : Mirror e 
       e'.lookup.maxSize = e.lookup.maxSize ∧ e'.lookup.data.Perm e.lookup.data ∧
       (∀ b, Mirror e' { d with lastReused := b }) ∧ 1 ≤ i ∧ i ≤ e.lookup.maxSize ∧
       d.at i = ({ d with lastReused := i }, .ok k) := by
-  obtain ⟨l', ht, _, hp, hmax, hev, _, h1, h2⟩ := LookupEnc.termIndex_resident m.wf h
+  obtain ⟨l', ht, _, hp, hmax, hev, _, h1, h2, hpin⟩ := LookupEnc.termIndex_resident m.wf h
+  have hnp : l'.pinned = none := by rw [hpin, m.np]; rfl
   refine ⟨_, ht, rfl, hmax, hp, ?_, h1, h2, (m.at_resident h).2.2⟩
   intro b
-  exact (m.of_perm hp hmax hev i).set_lastReused i b
+  exact (m.of_perm hp hmax hev hnp i).set_lastReused i b
 
 /-! ## The joint run -/
 
